@@ -294,9 +294,11 @@ class FortranAST:
                     # entities already live in the scope they would be added to
                     if include_ast.inc_scope is parent_scope:
                         continue
-                    # Remove old objects
+                    # Remove old objects (a file that is included back may
+                    # already have taken them out)
                     for obj in added_entities:
-                        parent_scope.children.remove(obj)
+                        if parent_scope is not None and obj in parent_scope.children:
+                            parent_scope.children.remove(obj)
                     added_entities = []
                     for child in include_ast.inc_scope.children[:]:
                         # Files that include each other: a scope is never made
